@@ -182,6 +182,23 @@ Theorem C09_agree_implies_spec_client : forall us i o,
 Proof. exact client_agree_implies_spec. Qed.
 Print Assumptions C09_agree_implies_spec_client.
 
+(** The client-side specification compares what a body denotes with what the value
+    denotes only up to the DAV: live properties asked for beside address-data
+    ([request_essence] keeps the address-data items of DAV:prop and everything else):
+    the statement lists the requested vCard properties or all-properties, not those. *)
+Theorem C09_client_spec_modulo_live_props : forall us i t t' r r',
+  rfc_read t = Some r -> rfc_read t' = Some r' -> request_essence r = request_essence r' ->
+  client_spec_ok us i (COBody t) = client_spec_ok us i (COBody t').
+Proof. exact client_spec_modulo_live_props. Qed.
+Print Assumptions C09_client_spec_modulo_live_props.
+
+Theorem C09_client_spec_accepts_other_live_props : forall us q r t r',
+  den_query q = Some r -> rfc_read t = Some r' ->
+  request_essence r' = request_essence (RQuery r) ->
+  client_spec_ok us (CIQuery q) (COBody t) = true.
+Proof. exact client_spec_accepts_other_live_props. Qed.
+Print Assumptions C09_client_spec_accepts_other_live_props.
+
 Theorem C09_agree_implies_spec_server : forall up path x d o r,
   validate x = Some r -> rfc_read d = Some r ->
   server_agrees up path d o = true -> server_spec_ok up path x d o = true.
